@@ -16,6 +16,10 @@ T1 = "quimb/tensor/tn1d/core.py"
 T2 = "quimb/tensor/tn2d/core.py"
 T3 = "quimb/tensor/tn3d/core.py"
 AG = "quimb/tensor/tnag/core.py"
+D2 = "quimb/tensor/belief_propagation/d2bp.py"
+_MEID = "TensorNetwork.multiply_each::frame-"
+_ME = ("        multiplied = self if inplace else self.copy()\n\n        for t in multiplied.tensors:\n"
+       "            t.modify(apply=lambda data: data * x)\n")
 
 MUTANTS = [
     # (1) remove .copy() from an idiom line
@@ -61,7 +65,7 @@ MUTANTS = [
     (TC, "alias-pairing[TensorNetwork.conj_]", "    conj_ = functools.partialmethod(conj, inplace=True)\n\n    @property\n    def H(self):\n        \"\"\"Conjugate all the tensors in this network (leaves all indices).",
      "    conj_ = functools.partialmethod(retag, inplace=True)\n\n    @property\n    def H(self):\n        \"\"\"Conjugate all the tensors in this network (leaves all indices).", "expect-fail"),
     (TC, "alias-pairing[TensorNetwork.negate_]", "    negate_ = functools.partialmethod(negate, inplace=True)\n\n    def __mul__(self, other):\n        \"\"\"Scalar multiplication.\"\"\"",
-     "    negate_ = functools.partialmethod(negate_each, inplace=True)\n\n    def __mul__(self, other):\n        \"\"\"Scalar multiplication.\"\"\"", "expect-fail"),
+     "    negate_ = functools.partialmethod(multiply_each, inplace=True)\n\n    def __mul__(self, other):\n        \"\"\"Scalar multiplication.\"\"\"", "expect-fail"),
     # (5) in-place operator on the original receiver instead of the copy
     (TC, "TensorNetwork.insert_operator::frame-", "        tn |= TA\n\n        return tn\n", "        self |= TA\n\n        return tn\n", "expect-fail"),
     (T1, "MatrixProductState.measure::frame-", "                tn ^= slice(site, site + 2)", "                self ^= slice(site, site + 2)",
@@ -78,6 +82,38 @@ MUTANTS = [
      "        tn = self if inplace else self.copy()\n        self.select(inds, virtual=False).reindex_({})\n\n        if isinstance(inds, str):\n            inds = (inds,)\n\n        for ind in inds:\n            tids = tn.ind_map[ind]", "benign"),
     (TC, "TensorNetwork.retag::frame-", "        tn = self if inplace else self.copy()\n",
      "        tn = self if inplace else self.copy()\n        del self.tag_map['x']\n", "expect-fail"),
+    # ---- soundness probes on one small method (TensorNetwork.multiply_each): every way of reaching the original
+    (TC, _MEID, _ME, _ME.replace("multiplied.tensors", "self.tensors"), "expect-fail"),                 # view of the original
+    (TC, _MEID, _ME, _ME + "        x0 = self\n        x0.exponent = 1.0\n", "expect-fail"),              # alias
+    (TC, _MEID, _ME, _ME + "        def _f():\n            self.drop_tags('a')\n        _f()\n", "expect-fail"),   # closure
+    (TC, _MEID, _ME, _ME + "        setattr(self, 'exponent', 2.0)\n", "expect-fail"),
+    (TC, _MEID, _ME, _ME + "        while x > 1:\n            self.pop_tensor(0)\n            x -= 1\n", "expect-fail"),
+    (TC, _MEID, _ME, _ME + "        kw = {}\n        kw['inplace'] = True\n        self.negate(**kw)\n", "expect-fail"),
+    (TC, _MEID, _ME, _ME + "        self._contract_around_tids([0], inplace=True)\n", "expect-fail"),  # flag through **kwargs
+    (TC, _MEID, _ME, _ME + "        [t.conj_() for t in self]\n", "expect-fail"),
+    (TC, _MEID, _ME, _ME + "        list(map(lambda t: t.conj_(), self.tensors))\n", "expect-fail"),
+    (TC, _MEID, _ME, _ME + "        TensorNetwork.negate(self, inplace=True)\n", "expect-fail"),        # class-qualified
+    (TC, _MEID, _ME, _ME + "        if not inplace:\n            self.negate_()\n", "expect-fail"),
+    (TC, _MEID, _ME, _ME + "        (self | multiplied).conj_()\n", "expect-fail"),                     # virtual combination
+    (TC, _MEID, _ME, _ME + "        ts = list(self.tensors)\n        ts[0].modify(tags=())\n", "expect-fail"),
+    (TC, _MEID, _ME, _ME.replace("self if inplace else self.copy()", "self if (inplace or x == 1) else self.copy()"), "expect-fail"),
+    (TC, _MEID, _ME, _ME.replace("self if inplace else self.copy()", "self.copy() if inplace else self"), "expect-fail"),
+    (TC, _MEID, _ME, _ME.replace("        multiplied = self if inplace else self.copy()\n",
+                                 "        multiplied = self\n        if not inplace:\n            multiplied = self.copy()\n"), "benign"),
+    (TC, _MEID, _ME, _ME + "        if not inplace:\n            return multiplied\n        self.negate_()\n", "benign"),
+    (TC, _MEID, _ME, _ME + "        self = multiplied\n        self.negate_()\n", "benign"),               # rebinding
+    (TC, _MEID, _ME, _ME + "        y = self.copy()\n        y.negate_()\n        z = self.negate()\n        z.conj_()\n", "benign"),
+    (TC, _MEID, _ME, _ME + "        n = self.num_tensors\n        n += 1\n        e = self.exponent\n        e += 1.0\n", "benign"),
+    # a deep leaf writes before its idiom: the whole non-in-place caller chain is hit
+    (TC, "Tensor.reindex::frame-", "        new = self if inplace else self.copy()\n\n        new_inds = tuple(index_map.get(ind, ind) for ind in new.inds)",
+     "        self._tags = None\n        new = self if inplace else self.copy()\n\n        new_inds = tuple(index_map.get(ind, ind) for ind in new.inds)", "expect-fail"),
+    # `tn = self if (inplace or insert_into is not None) else self.copy()`: drop the later rebinding
+    (TC, "TensorNetwork.insert_compressor_between_regions::frame-", "        if insert_into is not None:\n            tn = insert_into\n", "", "expect-fail"),
+    # helper objects holding the receiver (belief propagation)
+    (D2, "compress_d2bp::frame-", "        contract_every=contract_every,\n        inplace=inplace,\n        **contract_opts,\n    )\n    bp.run(",
+     "        contract_every=contract_every,\n        inplace=True,\n        **contract_opts,\n    )\n    bp.run(", "expect-fail"),
+    ("quimb/tensor/belief_propagation/bp_common.py", "compress_d2bp::frame-", "        self.tn = tn if inplace else tn.copy()", "        self.tn = tn", "expect-fail"),
+    (D2, "D2BP.compress::frame-", "        tn = self.tn if inplace else self.tn.copy()", "        tn = self.tn", "expect-fail"),
     # a leaf mutator loses its write: every caller stays fine, the leaf consistency obligation notices
     (TC, "Tensor._set_data::leaf-summary-consistent", "        self._data = asarray(data)\n", "        pass\n", "expect-fail"),
 ]
@@ -122,7 +158,7 @@ def run(which=None, verbose=True):
             open(path, "w").write(orig)
         hit = {k: v for k, v in res.items() if suffix in k}
         flipped = sorted(k for k, v in res.items() if v != base.get(k))
-        failed_hit = [k for k, v in hit.items() if v == "failed"]
+        failed_hit = [k for k, v in hit.items() if v == "failed" or (v == "unknown" and "leaf-summary" in k)]
         good = bool(failed_hit) if expect == "expect-fail" else (bool(hit) and all(v == "discharged" for v in hit.values())
                                                                 and not [k for k in flipped if res[k] == "failed"])
         ok_all &= good
